@@ -65,7 +65,7 @@ let run (path : string) =
             ~detail:(Printf.sprintf "%s_%s_breaker=%b_esm=%d_mask=%d_cls=%s_changed=%b" handler tag breaker esm mask cls changed);
         if (not breaker) && esm = 0 then
           if not (holds_C14_price (mask <> 0) (needed <> 0) ok base_ok same changed) then
-            let kf = if kf_C14_bid_stale_debt_price h (needed <> 0) ok base_ok same then "kf_C14_bid_stale_debt_price" else "none" in
+            let kf = "none" in
             (* Conv prints the first 200 failures only: a known class must not crowd out an unknown one *)
             if kf <> "none" then incr kf_seen;
             if kf <> "none" && !kf_seen > 20 then bump ("predfail-not-listed:holds_C14_price:" ^ kf) else
